@@ -1,1 +1,622 @@
+(* Proofs for M-SERVER: the model's trace satisfies mon_C09 for every event list, and mon_C07 for
+   every event list in which no HTTP/2-only server meets a client that never completes the preface
+   (known finding D15).  Method: a relation [Rel] between the model state and the monitors'
+   counters over the trace emitted so far, preserved by every micro step of the model; the checks
+   of the monitors follow from [Rel] (safety) and from [Quiet], which every settle establishes
+   (liveness at the quiescent points). *)
 From HD Require Import common.Base server.Model server.Spec.
+
+Local Ltac inv H := inversion H; subst; clear H.
+
+(* ------------------------------------------------------------------ lists, upd, nth_error *)
+Lemma upd_length : forall A (f : A -> A) l n, length (upd n f l) = length l.
+Proof. induction l as [|a l IH]; intros [|n]; cbn; auto. Qed.
+
+Lemma nth_upd_eq : forall A (f : A -> A) l n, nth_error (upd n f l) n = option_map f (nth_error l n).
+Proof. induction l as [|a l IH]; intros [|n]; cbn; auto. Qed.
+
+Lemma nth_upd_neq : forall A (f : A -> A) l n k, n <> k -> nth_error (upd n f l) k = nth_error l k.
+Proof.
+  induction l as [|a l IH]; intros [|n] [|k] Hn; cbn; auto; try congruence;
+    try (apply IH; congruence).
+Qed.
+
+Lemma fold_left_inv : forall (A B : Type) (P : A -> Prop) (f : A -> B -> A) l s,
+  (forall s c, P s -> P (f s c)) -> P s -> P (fold_left f l s).
+Proof. induction l; cbn; auto. Qed.
+
+(* a loop over connection ids: P is kept, and every visited id ends up with Q *)
+Lemma fold_left_all : forall (A : Type) (P : A -> Prop) (Q : A -> nat -> Prop) (f : A -> nat -> A),
+  (forall s c, P s -> P (f s c)) ->
+  (forall s c, P s -> Q (f s c) c) ->
+  (forall s c j, P s -> Q s j -> Q (f s c) j) ->
+  forall l s, P s -> P (fold_left f l s) /\ forall j, In j l -> Q (fold_left f l s) j.
+Proof.
+  intros A P Q f HP HQ HK.
+  assert (Keep : forall l s j, P s -> Q s j -> Q (fold_left f l s) j).
+  { induction l; cbn; intros; auto. }
+  induction l as [|c l IH]; cbn; intros s Ps.
+  - split; [auto | intros j []].
+  - destruct (IH (f s c) (HP _ _ Ps)) as [P' Q']. split; auto.
+    intros j [<- | Hj]; auto.
+Qed.
+
+(* ------------------------------------------------------------------ trace and counters *)
+Definition mstate (s : state) : ms := tracks ms0 (trace s).
+Definition emits (os : list oev) (s : state) : state :=
+  mkSt (s_srv s) (s_fired s) (s_lost s) (s_armed s) (s_queue s) (s_conns s) (rev os ++ s_out s).
+Definition Good (chk : ms -> oev -> bool) (s : state) : Prop := mon_from chk ms0 (trace s) = true.
+
+Lemma tracks_app : forall a b m, tracks m (a ++ b) = tracks (tracks m a) b.
+Proof. intros. unfold tracks. apply fold_left_app. Qed.
+
+Lemma mon_from_app : forall chk a b m,
+  mon_from chk m (a ++ b) = mon_from chk m a && mon_from chk (tracks m a) b.
+Proof.
+  induction a as [|o a IH]; cbn; intros; auto.
+  rewrite IH, andb_assoc. reflexivity.
+Qed.
+
+Lemma trace_emits : forall os s, trace (emits os s) = trace s ++ os.
+Proof. intros. unfold trace, emits. cbn. now rewrite rev_app_distr, rev_involutive. Qed.
+
+Lemma mstate_emits : forall os s, mstate (emits os s) = tracks (mstate s) os.
+Proof. intros. unfold mstate. now rewrite trace_emits, tracks_app. Qed.
+
+Lemma emit_emits : forall o s, emit o s = emits [o] s.
+Proof. reflexivity. Qed.
+
+Lemma mstate_emit : forall o s, mstate (emit o s) = track (mstate s) o.
+Proof. intros. rewrite emit_emits. apply (mstate_emits [o]). Qed.
+
+Lemma good_emits : forall chk os s,
+  Good chk s -> mon_from chk (mstate s) os = true -> Good chk (emits os s).
+Proof.
+  unfold Good, mstate. intros. rewrite trace_emits, mon_from_app, H, H0. reflexivity.
+Qed.
+
+Lemma good_emit : forall chk o s, Good chk s -> chk (mstate s) o = true -> Good chk (emit o s).
+Proof. intros. rewrite emit_emits. apply (good_emits chk [o]); auto. cbn. now rewrite H0. Qed.
+
+(* state changes that do not touch the trace *)
+Lemma mstate_out : forall s s', s_out s' = s_out s -> mstate s' = mstate s.
+Proof. unfold mstate, trace. intros ? ? ->. reflexivity. Qed.
+Lemma good_out : forall chk s s', s_out s' = s_out s -> Good chk s -> Good chk s'.
+Proof. unfold Good, trace. intros ? ? ? ->. auto. Qed.
+
+(* ------------------------------------------------------------------ the relation *)
+Definition b2n (b : bool) : nat := if b then 1 else 0.
+Definition ph_acc (p : phase) := match p with Queued | Refused => false | _ => true end.
+Definition ph_sp (p : phase) := match p with Sniffing | Open | Closed => true | _ => false end.
+Definition ph_closed (p : phase) := match p with Closed => true | _ => false end.
+Definition ph_pre (p : phase) := match p with Queued | Refused | Dropped => true | _ => false end.
+Definition ph_dead (p : phase) := match p with Refused | Dropped => true | _ => false end.
+Definition ph_open (p : phase) := match p with Open => true | _ => false end.
+
+(* connection x of the model against its counters y; sd = the serving future has completed,
+   cz = one of the three legitimate causes has been seen *)
+Record Rc (g : cfg) (sd cz : bool) (x : conn) (y : cm) : Prop := mkRc {
+  r_conn : m_connected y = true;
+  r_acc : m_accepted y = ph_acc (c_ph x);
+  r_sp : m_spawned y = ph_sp (c_ph x);
+  r_told : m_told y = b2n (c_told x);
+  r_done : m_done y = ph_closed (c_ph x);
+  r_fault : m_fault y = c_faulty x;
+  r_begun : c_faulty x = false -> m_envdone y + length (c_infl x) + b2n (c_cut x) <= m_begun y;
+  r_resp : c_faulty x = false -> m_resp y = m_envdone y;
+  r_hb : c_faulty x = false -> m_hb y <= m_resp y + length (c_infl x);
+  r_quiet : ph_open (c_ph x) = false -> c_infl x = [] /\ c_cut x = false;
+  r_pre : ph_pre (c_ph x) = true -> c_told x = false;
+  r_dead : ph_dead (c_ph x) = true -> cz = true;
+  r_wc : c_told x = true -> g_graceful g && sd = true
+}.
+
+Record Rel (g : cfg) (q : list qent) (s : state) (m : ms) : Prop := mkRel {
+  g_fired : k_fired m = s_fired s;
+  g_server : k_server m = match s_srv s with SDone r => Some r | _ => None end;
+  g_n : k_n m = length (s_conns s);
+  g_cause : s_fired s || s_lost s || s_armed s || srv_done s = true -> k_cause m = true;
+  g_grace : s_fired s = true -> g_graceful g = true;
+  g_conns : forall c x, nth_error (s_conns s) c = Some x -> Rc g (srv_done s) (k_cause m) x (k_conns m c);
+  g_fresh : forall c, length (s_conns s) <= c -> k_conns m c = cm0;
+  g_snap : s_fired s = true -> forall c x, nth_error (s_conns s) c = Some x ->
+           c_cut x = true -> idle_cm (k_snap m c) = false;
+  g_queue : forall c x, nth_error (s_conns s) c = Some x -> c_ph x = Queued ->
+            In (QLive c) q \/ srv_done s = true \/ s_lost s = true
+}.
+
+(* an HTTP/2-only server never meets a client that does not complete the preface (D15) *)
+Definition NoSilentK (g : cfg) (s : state) : Prop :=
+  is_h2proto (g_proto g) = true ->
+  forall c x, nth_error (s_conns s) c = Some x ->
+  kind_eqb (c_kind x) KRaw = false /\ kind_eqb (c_kind x) KCut = false.
+
+Definition Full (ns : bool) (g : cfg) (q : list qent) (s : state) : Prop :=
+  Rel g q s (mstate s) /\ Good chk09 s /\ (ns = true -> NoSilentK g s /\ Good chk07 s).
+
+(* what a settle establishes *)
+Record Quiet (g : cfg) (s : state) : Prop := mkQuiet {
+  q_fired : s_fired s = true -> srv_done s = true;
+  q_queued : forall c x, nth_error (s_conns s) c = Some x -> c_ph x <> Queued;
+  q_told : watch_closed g s = true -> forall c x, nth_error (s_conns s) c = Some x ->
+           live x = true -> c_told x = true;
+  q_stable : forall c x, nth_error (s_conns s) c = Some x -> closes g x = false
+}.
+
+(* the counters changed at connection c only, by fy *)
+Record ConnOnly (c : nat) (fy : cm -> cm) (m m' : ms) : Prop := mkCO {
+  o_fired : k_fired m' = k_fired m;
+  o_cause : k_cause m' = k_cause m;
+  o_server : k_server m' = k_server m;
+  o_n : k_n m' = Nat.max (k_n m) (S c);
+  o_at : k_conns m' c = fy (k_conns m c);
+  o_else : forall c', c' <> c -> k_conns m' c' = k_conns m c';
+  o_snap : forall c', k_snap m' c' = k_snap m c'
+}.
+
+Lemma conn_only_updc : forall c f m, ConnOnly c f m (updc c f m).
+Proof.
+  intros. constructor; cbn; auto.
+  - now rewrite Nat.eqb_refl.
+  - intros c' H. destruct (Nat.eqb_spec c' c); congruence.
+Qed.
+
+Lemma conn_only_nil : forall c m, c < k_n m -> ConnOnly c (fun y => y) m m.
+Proof. intros. constructor; auto. lia. Qed.
+
+Lemma conn_only_trans : forall c f1 f2 m m1 m2,
+  ConnOnly c f1 m m1 -> ConnOnly c f2 m1 m2 -> ConnOnly c (fun y => f2 (f1 y)) m m2.
+Proof.
+  intros c f1 f2 m m1 m2 [] []. constructor; try congruence; try lia.
+  all: intros; try (rewrite o_else1, o_else0; now auto); try now rewrite o_snap1, o_snap0.
+Qed.
+
+Lemma get_some_lt : forall c s x, get c s = Some x -> c < length (s_conns s).
+Proof. unfold get. intros. apply nth_error_Some. congruence. Qed.
+
+Lemma get_modc_eq : forall c f s, get c (modc c f s) = option_map f (get c s).
+Proof. intros. unfold get, modc. cbn. apply nth_upd_eq. Qed.
+Lemma get_modc_neq : forall c c' f s, c <> c' -> get c' (modc c f s) = get c' s.
+Proof. intros. unfold get, modc. cbn. now apply nth_upd_neq. Qed.
+Lemma get_emits : forall c os s, get c (emits os s) = get c s.
+Proof. reflexivity. Qed.
+Lemma get_emit : forall c o s, get c (emit o s) = get c s.
+Proof. reflexivity. Qed.
+
+(* THE step lemma for everything that happens on one connection:
+   connection c goes from x to f x while the events os (all about c) are emitted *)
+Lemma full_conn : forall ns g q s c x f fy os,
+  Full ns g q s -> get c s = Some x ->
+  ConnOnly c fy (mstate s) (tracks (mstate s) os) ->
+  mon_from chk09 (mstate s) os = true ->
+  (ns = true -> mon_from chk07 (mstate s) os = true) ->
+  Rc g (srv_done s) (k_cause (mstate s)) (f x) (fy (k_conns (mstate s) c)) ->
+  (c_ph (f x) = Queued -> c_ph x = Queued) ->
+  (s_fired s = true -> c_cut (f x) = true -> c_cut x = true) ->
+  c_kind (f x) = c_kind x ->
+  Full ns g q (emits os (modc c f s)).
+Proof.
+  intros ns g q s c x f fy os [R [G9 G7]] Hx CO M9 M7 HRc Hq Hcut Hk.
+  assert (Hlt := get_some_lt _ _ _ Hx).
+  assert (Hm : mstate (emits os (modc c f s)) = tracks (mstate s) os).
+  { rewrite mstate_emits. reflexivity. }
+  destruct R, CO.
+  split; [| split].
+  - rewrite Hm. constructor; cbn.
+    + congruence.
+    + congruence.
+    + rewrite upd_length. lia.
+    + intro H. rewrite o_cause0. auto.
+    + auto.
+    + intros c' x' Hn. destruct (Nat.eq_dec c' c) as [-> | Hne].
+      * rewrite nth_upd_eq in Hn. unfold get in Hx. rewrite Hx in Hn. cbn in Hn. inv Hn.
+        rewrite o_at0, o_cause0. exact HRc.
+      * rewrite nth_upd_neq in Hn by congruence. rewrite o_else0, o_cause0 by auto. now apply g_conns0.
+    + intros c' Hc'. rewrite upd_length in Hc'. rewrite o_else0 by lia. auto.
+    + intros Hf c' x' Hn Hc. rewrite o_snap0. destruct (Nat.eq_dec c' c) as [-> | Hne].
+      * rewrite nth_upd_eq in Hn. unfold get in Hx. rewrite Hx in Hn. cbn in Hn. inv Hn.
+        eapply g_snap0; eauto.
+      * rewrite nth_upd_neq in Hn by congruence. eapply g_snap0; eauto.
+    + intros c' x' Hn Hp. destruct (Nat.eq_dec c' c) as [-> | Hne].
+      * rewrite nth_upd_eq in Hn. unfold get in Hx. rewrite Hx in Hn. cbn in Hn. inv Hn.
+        eapply g_queue0; eauto.
+      * rewrite nth_upd_neq in Hn by congruence. eapply g_queue0; eauto.
+  - apply good_emits.
+    + eapply good_out; [| exact G9]. reflexivity.
+    + erewrite mstate_out; [exact M9 | reflexivity].
+  - intro Hns. destruct (G7 Hns) as [NS G]. split.
+    + intros Hp c' x' Hn. cbn in Hn. destruct (Nat.eq_dec c' c) as [-> | Hne].
+      * rewrite nth_upd_eq in Hn. unfold get in Hx. rewrite Hx in Hn. cbn in Hn. inv Hn.
+        rewrite Hk. eapply NS; eauto.
+      * rewrite nth_upd_neq in Hn by congruence. eapply NS; eauto.
+    + apply good_emits.
+      * eapply good_out; [| exact G]. reflexivity.
+      * erewrite mstate_out; [apply M7; auto | reflexivity].
+Qed.
+
+(* ------------------------------------------------------------------ quiescence bookkeeping *)
+(* Quiet, except that connection c may be about to close *)
+Record QuietEx (g : cfg) (c : nat) (s : state) : Prop := mkQuietEx {
+  e_fired : s_fired s = true -> srv_done s = true;
+  e_queued : forall c' x, nth_error (s_conns s) c' = Some x -> c_ph x <> Queued;
+  e_told : watch_closed g s = true -> forall c' x, nth_error (s_conns s) c' = Some x ->
+           live x = true -> c_told x = true;
+  e_stable : forall c' x, c' <> c -> nth_error (s_conns s) c' = Some x -> closes g x = false
+}.
+
+Lemma quiet_weak : forall g c s, Quiet g s -> QuietEx g c s.
+Proof. intros g c s []. constructor; eauto. Qed.
+
+Lemma quietex_strong : forall g c s,
+  QuietEx g c s -> (forall x, get c s = Some x -> closes g x = false) -> Quiet g s.
+Proof.
+  intros g c s [] H. constructor; eauto.
+  intros c' x Hn. destruct (Nat.eq_dec c' c) as [-> | Hne]; eauto.
+Qed.
+
+Lemma quietex_conn : forall g s c x f os,
+  QuietEx g c s -> get c s = Some x ->
+  c_ph (f x) <> Queued ->
+  (watch_closed g s = true -> live (f x) = true -> c_told (f x) = true) ->
+  QuietEx g c (emits os (modc c f s)).
+Proof.
+  intros g s c x f os [] Hx Hp Ht. unfold get in Hx. constructor; cbn; auto.
+  - intros c' x' Hn. destruct (Nat.eq_dec c' c) as [-> | Hne].
+    + rewrite nth_upd_eq, Hx in Hn. cbn in Hn. inv Hn. auto.
+    + rewrite nth_upd_neq in Hn by congruence. eauto.
+  - intros Hw c' x' Hn Hl. destruct (Nat.eq_dec c' c) as [-> | Hne].
+    + rewrite nth_upd_eq, Hx in Hn. cbn in Hn. inv Hn. auto.
+    + rewrite nth_upd_neq in Hn by congruence. eauto.
+  - intros c' x' Hne Hn. rewrite nth_upd_neq in Hn by congruence. eauto.
+Qed.
+
+Lemma closes_closed : forall g x, closes g (w_closed x) = false.
+Proof. intros. unfold closes. cbn. apply andb_false_r. Qed.
+
+Lemma quietex_close : forall g c s, QuietEx g c s -> Quiet g (close_if_idle g c s).
+Proof.
+  intros g c s Q. unfold close_if_idle. destruct (get c s) as [x|] eqn:Hx.
+  - destruct (closes g x) eqn:Hc.
+    + rewrite emit_emits. eapply quietex_strong with (c := c).
+      * eapply quietex_conn; eauto; cbn; congruence.
+      * intros x'. rewrite get_emits, get_modc_eq, Hx. cbn. intros H. inv H. apply closes_closed.
+    + eapply quietex_strong; eauto. intros x' H. congruence.
+  - eapply quietex_strong; eauto. intros x' H. congruence.
+Qed.
+
+(* ------------------------------------------------------------------ Rc helpers *)
+Lemma rc_mono : forall g cz x y, Rc g false cz x y -> Rc g true cz x y.
+Proof.
+  intros g cz x y []. constructor; auto.
+  intros H. apply r_wc0 in H. now rewrite andb_false_r in H.
+Qed.
+
+Lemma rc_cause : forall g sd x y, Rc g sd false x y -> Rc g sd true x y.
+Proof. intros g sd x y []. constructor; auto. Qed.
+
+Lemma b2n_false : b2n false = 0. Proof. reflexivity. Qed.
+Lemma b2n_true : b2n true = 1. Proof. reflexivity. Qed.
+
+Ltac rc_start H := destruct H as [Rconn Racc Rsp Rtold Rdone Rfault Rbegun Rresp Rhb Rquiet Rpre Rdead Rwc].
+
+(* use every available premise, split, substitute, compute, then arithmetic *)
+Ltac rc_fin :=
+  repeat match goal with
+  | H : ?a = ?a -> _ |- _ => specialize (H eq_refl)
+  | H : ?p, I : ?p -> _ |- _ => specialize (I H)
+  | H : _ /\ _ |- _ => destruct H
+  end; subst; cbn in *; auto; try lia; try discriminate; try congruence.
+
+Lemma full_rel : forall ns g q s, Full ns g q s -> Rel g q s (mstate s).
+Proof. intros ns g q s [R _]. exact R. Qed.
+
+Lemma full_get : forall ns g q s c x,
+  Full ns g q s -> get c s = Some x -> Rc g (srv_done s) (k_cause (mstate s)) x (k_conns (mstate s) c).
+Proof. intros ns g q s c x [R _] H. destruct R. auto. Qed.
+
+Lemma full_lt : forall ns g q s c x, Full ns g q s -> get c s = Some x -> c < k_n (mstate s).
+Proof. intros ns g q s c x [R _] H. destruct R. rewrite g_n0. eapply get_some_lt; eauto. Qed.
+
+(* changes of connection c that emit nothing *)
+Lemma full_conn_silent : forall ns g q s c x f,
+  Full ns g q s -> get c s = Some x ->
+  Rc g (srv_done s) (k_cause (mstate s)) (f x) (k_conns (mstate s) c) ->
+  (c_ph (f x) = Queued -> c_ph x = Queued) ->
+  (s_fired s = true -> c_cut (f x) = true -> c_cut x = true) ->
+  c_kind (f x) = c_kind x ->
+  Full ns g q (modc c f s).
+Proof.
+  intros. change (modc c f s) with (emits [] (modc c f s)).
+  eapply full_conn with (fy := fun y => y); eauto.
+  apply conn_only_nil. eapply full_lt; eauto.
+Qed.
+
+(* ------------------------------------------------------------------ the driver *)
+Lemma full_close : forall ns g q s c, Full ns g q s -> Full ns g q (close_if_idle g c s).
+Proof.
+  intros ns g q s c F. unfold close_if_idle. destruct (get c s) as [x|] eqn:Hx; auto.
+  destruct (closes g x) eqn:Hc; auto.
+  assert (HR := full_get _ _ _ _ _ _ F Hx).
+  rewrite emit_emits. eapply full_conn with (fy := cm_done); eauto.
+  - apply conn_only_updc.
+  - rc_start HR. unfold closes in Hc. apply andb_prop in Hc. destruct Hc as [Ht Hc].
+    destruct x as [k p t cu ga il go fa ke]. cbn in *.
+    unfold drained in Hc. cbn in Hc.
+    destruct p; try discriminate; constructor; cbn in *; auto; intros; rc_fin.
+    all: destruct il; try discriminate; rc_fin.
+  - cbn. discriminate.
+  - cbn. discriminate.
+Qed.
+
+Lemma full_mark_told : forall ns g q s c,
+  Full ns g q s -> watch_closed g s = true -> Full ns g q (mark_told s c).
+Proof.
+  intros ns g q s c F W. unfold mark_told. destruct (get c s) as [x|] eqn:Hx; auto.
+  destruct (live x && negb (c_told x)) eqn:Hc; auto.
+  apply andb_prop in Hc. destruct Hc as [Hl Ht]. apply negb_true_iff in Ht.
+  assert (HR := full_get _ _ _ _ _ _ F Hx).
+  rewrite emit_emits. eapply full_conn with (fy := cm_told); eauto.
+  - apply conn_only_updc.
+  - intros _. cbn. rc_start HR. rewrite Rtold, Ht. reflexivity.
+  - rc_start HR. unfold live in Hl. unfold watch_closed in W.
+    destruct x as [k p t cu ga il go fa ke]. cbn in *. subst t.
+    destruct p; try discriminate; constructor; cbn in *; auto; intros; rc_fin.
+Qed.
+
+Lemma full_drive : forall ns g q s c, Full ns g q s -> Full ns g q (drive g s c).
+Proof.
+  intros. unfold drive. apply full_close. destruct (watch_closed g s) eqn:W; auto.
+  now apply full_mark_told.
+Qed.
+
+(* facts about the parts of the state the driver does not touch *)
+Lemma close_if_idle_same : forall g c s,
+  s_srv (close_if_idle g c s) = s_srv s /\ s_fired (close_if_idle g c s) = s_fired s
+  /\ length (s_conns (close_if_idle g c s)) = length (s_conns s)
+  /\ forall c', c' <> c -> get c' (close_if_idle g c s) = get c' s.
+Proof.
+  intros. unfold close_if_idle. destruct (get c s); [destruct (closes g c0) |]; cbn; repeat split; auto.
+  - apply upd_length.
+  - intros. unfold get. cbn. apply nth_upd_neq. congruence.
+Qed.
+
+Lemma mark_told_same : forall c s,
+  s_srv (mark_told s c) = s_srv s /\ s_fired (mark_told s c) = s_fired s
+  /\ length (s_conns (mark_told s c)) = length (s_conns s)
+  /\ forall c', c' <> c -> get c' (mark_told s c) = get c' s.
+Proof.
+  intros. unfold mark_told. destruct (get c s); [destruct (live c0 && negb (c_told c0)) |]; cbn; repeat split; auto.
+  - apply upd_length.
+  - intros. unfold get. cbn. apply nth_upd_neq. congruence.
+Qed.
+
+Lemma drive_same : forall g c s,
+  s_srv (drive g s c) = s_srv s /\ s_fired (drive g s c) = s_fired s
+  /\ length (s_conns (drive g s c)) = length (s_conns s)
+  /\ forall c', c' <> c -> get c' (drive g s c) = get c' s.
+Proof.
+  intros. unfold drive.
+  destruct (close_if_idle_same g c (if watch_closed g s then mark_told s c else s)) as (A & B & C & D).
+  destruct (mark_told_same c s) as (A' & B' & C' & D').
+  destruct (watch_closed g s); repeat split; try congruence; auto.
+  intros c' H. rewrite D, D'; auto.
+Qed.
+
+(* after its driver ran, connection c is told (if the watch is closed) and not about to close;
+   phases never go back to Queued *)
+Lemma mark_told_at : forall s c x,
+  get c (mark_told s c) = Some x ->
+  (live x = true -> c_told x = true) /\ (c_ph x = Queued -> exists x0, get c s = Some x0 /\ c_ph x0 = Queued).
+Proof.
+  intros s c x. unfold mark_told. destruct (get c s) as [x0|] eqn:Hx.
+  - destruct (live x0 && negb (c_told x0)) eqn:Hc.
+    + rewrite get_emit, get_modc_eq, Hx. cbn. intros H. inv H. cbn. split; auto.
+      intros. eauto.
+    + rewrite Hx. intros H. inv H. split; eauto.
+      intros Hl. rewrite Hl in Hc. cbn in Hc. now apply negb_false_iff in Hc.
+  - congruence.
+Qed.
+
+Lemma close_at : forall g s c x,
+  get c (close_if_idle g c s) = Some x ->
+  closes g x = false /\
+  exists x0, get c s = Some x0 /\ (c_ph x = Queued -> c_ph x0 = Queued)
+             /\ ((live x0 = true -> c_told x0 = true) -> live x = true -> c_told x = true).
+Proof.
+  intros g s c x. unfold close_if_idle. destruct (get c s) as [x0|] eqn:Hx.
+  - destruct (closes g x0) eqn:Hc.
+    + rewrite get_emit, get_modc_eq, Hx. cbn. intros H. inv H. split; [apply closes_closed|].
+      exists x0. cbn. repeat split; auto; discriminate.
+    + rewrite Hx. intros H. inv H. eauto 6.
+  - congruence.
+Qed.
+
+Definition QAt (g : cfg) (s : state) (c : nat) : Prop :=
+  forall x, get c s = Some x ->
+  c_ph x <> Queued /\ (watch_closed g s = true -> live x = true -> c_told x = true) /\ closes g x = false.
+
+Lemma watch_closed_same : forall g s s', s_srv s' = s_srv s -> watch_closed g s' = watch_closed g s.
+Proof. unfold watch_closed, srv_done. intros g s s' ->. reflexivity. Qed.
+
+Lemma drive_all_quiet : forall ns g q s,
+  Full ns g q s -> (s_fired s = true -> srv_done s = true) ->
+  (forall c x, get c s = Some x -> c_ph x <> Queued) ->
+  Full ns g q (drive_all g s) /\ Quiet g (drive_all g s).
+Proof.
+  intros ns g q s F S1 S2. unfold drive_all.
+  set (n := length (s_conns s)).
+  pose (P := fun s' : state => Full ns g q s' /\ s_srv s' = s_srv s /\ s_fired s' = s_fired s
+                               /\ length (s_conns s') = n
+                               /\ (forall c x, get c s' = Some x -> c_ph x <> Queued)).
+  destruct (fold_left_all state P (QAt g) (drive g)) with (l := seq 0 n) (s := s) as [HP HQ].
+  - intros s' c (F' & A & B & C & D). destruct (drive_same g c s') as (A' & B' & C' & D').
+    refine (conj _ (conj _ (conj _ (conj _ _)))); try congruence.
+    + now apply full_drive.
+    + intros c' x Hg. destruct (Nat.eq_dec c' c) as [-> | Hne].
+      * unfold drive in Hg. apply close_at in Hg. destruct Hg as (_ & x0 & Hg & Hq & _).
+        intros Hp. specialize (Hq Hp).
+        destruct (watch_closed g s').
+        -- apply mark_told_at in Hg. destruct Hg as (_ & Hg). destruct (Hg Hq) as (x1 & H1 & H2).
+           eapply D; eauto.
+        -- eapply D; eauto.
+      * rewrite D' in Hg by auto. eapply D; eauto.
+  - intros s' c (F' & A & B & C & D) x Hg.
+    assert (W : watch_closed g (drive g s' c) = watch_closed g s').
+    { apply watch_closed_same. apply drive_same. }
+    rewrite W. unfold drive in Hg. apply close_at in Hg. destruct Hg as (Hc & x0 & Hg & Hq & Ht).
+    repeat split; auto.
+    + intros Hp. specialize (Hq Hp). destruct (watch_closed g s').
+      * apply mark_told_at in Hg. destruct Hg as (_ & Hg). destruct (Hg Hq) as (x1 & H1 & H2).
+        eapply D; eauto.
+      * eapply D; eauto.
+    + intros Hw. rewrite Hw in Hg. apply mark_told_at in Hg. destruct Hg as (Hg & _). auto.
+  - intros s' c j (F' & A & B & C & D) HQ x Hg.
+    assert (W : watch_closed g (drive g s' c) = watch_closed g s').
+    { apply watch_closed_same. apply drive_same. }
+    destruct (Nat.eq_dec j c) as [-> | Hne].
+    + rewrite W. unfold drive in Hg. apply close_at in Hg. destruct Hg as (Hc & x0 & Hg & Hq & Ht).
+      repeat split; auto.
+      * intros Hp. specialize (Hq Hp). destruct (watch_closed g s').
+        -- apply mark_told_at in Hg. destruct Hg as (_ & Hg). destruct (Hg Hq) as (x1 & H1 & H2).
+           eapply D; eauto.
+        -- eapply D; eauto.
+      * intros Hw. rewrite Hw in Hg. apply mark_told_at in Hg. destruct Hg as (Hg & _). auto.
+    + rewrite W. destruct (drive_same g c s') as (_ & _ & _ & D'). rewrite D' in Hg by auto.
+      now apply HQ.
+  - refine (conj _ (conj _ (conj _ (conj _ _)))); auto.
+  - destruct HP as (F' & A & B & C & D). split; auto.
+    set (s' := fold_left (drive g) (seq 0 n) s) in *.
+    assert (HQ' : forall c x, get c s' = Some x -> QAt g s' c).
+    { intros c x Hg. apply HQ. apply in_seq. apply get_some_lt in Hg. lia. }
+    constructor.
+    + rewrite B. unfold srv_done. rewrite A. exact S1.
+    + intros c x Hg. eapply D; eauto.
+    + intros Hw c x Hg. destruct (HQ' c x Hg x Hg) as (_ & H & _). auto.
+    + intros c x Hg. destruct (HQ' c x Hg x Hg) as (_ & _ & H). auto.
+Qed.
+
+(* ------------------------------------------------------------------ global changes *)
+Lemma full_queue_param : forall ns g q q' s,
+  Full ns g q s ->
+  (forall c x, get c s = Some x -> c_ph x = Queued -> In (QLive c) q ->
+               In (QLive c) q' \/ srv_done s = true \/ s_lost s = true) ->
+  Full ns g q' s.
+Proof.
+  intros ns g q q' s [R G] H. split; auto. destruct R. constructor; auto.
+  intros c x Hn Hp. destruct (g_queue0 c x Hn Hp) as [Hi | Hd]; auto. eapply H; eauto.
+Qed.
+
+Lemma full_set_queue : forall ns g q v s, Full ns g q s -> Full ns g q (set_queue v s).
+Proof.
+  intros ns g q v s [R G]. split; [| exact G]. destruct R. constructor; auto.
+Qed.
+
+Lemma full_set_armed_false : forall ns g q s, Full ns g q s -> Full ns g q (set_armed false s).
+Proof.
+  intros ns g q s [R G]. split; [| exact G]. destruct R. constructor; auto.
+  intros H. apply g_cause0. change (s_fired s || s_lost s || false || srv_done s = true) in H.
+  destruct (s_fired s), (s_lost s), (srv_done s), (s_armed s); cbn in *; auto.
+Qed.
+
+Lemma full_set_accepting : forall ns g q s,
+  Full ns g q s -> srv_done s = false -> Full ns g q (set_srv SAccepting s).
+Proof.
+  intros ns g q s [R G] Hd. split; [| exact G]. unfold srv_done in *. destruct R. constructor; cbn; auto.
+  - rewrite g_server0. destruct (s_srv s); auto; discriminate.
+  - intros H. apply g_cause0. unfold srv_done. rewrite Hd. exact H.
+  - intros c x Hn. specialize (g_conns0 c x Hn). unfold srv_done in g_conns0. now rewrite Hd in g_conns0.
+  - intros c x Hn Hp. destruct (g_queue0 c x Hn Hp) as [|[|]]; auto. unfold srv_done in H. congruence.
+Qed.
+
+Lemma full_finish : forall ns g q q' s r,
+  Full ns g q s -> srv_done s = false -> k_cause (mstate s) = true ->
+  (ns = true -> s_fired s = true -> r = true) ->
+  Full ns g q' (finish r s).
+Proof.
+  intros ns g q q' s r [R [G9 G7]] Hd Hc Hr. unfold finish.
+  assert (Hm : mstate (emit (OServer r) (set_srv (SDone r) s)) = track (mstate s) (OServer r)).
+  { rewrite mstate_emit. reflexivity. }
+  destruct R. split; [| split].
+  - rewrite Hm. constructor; cbn; auto.
+    intros c x Hn. specialize (g_conns0 c x Hn). rewrite Hd in g_conns0. now apply rc_mono.
+  - apply good_emit; [eapply good_out; [| exact G9]; reflexivity |].
+    erewrite mstate_out by reflexivity. exact Hc.
+  - intros Hns. destruct (G7 Hns) as [NS G]. split; [exact NS |].
+    apply good_emit; [eapply good_out; [| exact G]; reflexivity |].
+    erewrite mstate_out by reflexivity. cbn. rewrite g_fired0.
+    destruct (s_fired s) eqn:Hf; auto. cbn. now apply Hr.
+Qed.
+
+(* an event that leaves the counters alone *)
+Lemma full_emit_plain : forall ns g q s o,
+  Full ns g q s -> track (mstate s) o = mstate s ->
+  chk09 (mstate s) o = true -> (ns = true -> chk07 (mstate s) o = true) ->
+  Full ns g q (emit o s).
+Proof.
+  intros ns g q s o [R [G9 G7]] Ht H9 H7. split; [| split].
+  - rewrite mstate_emit, Ht. destruct R. constructor; auto.
+  - now apply good_emit.
+  - intros Hns. destruct (G7 Hns). split; auto. apply good_emit; auto.
+Qed.
+
+(* ------------------------------------------------------------------ refusing *)
+Lemma full_refuse : forall ns g q s c,
+  Full ns g q s -> srv_done s = true -> Full ns g q (refuse s c).
+Proof.
+  intros ns g q s c F Hd. unfold refuse. destruct (get c s) as [x|] eqn:Hx; auto.
+  destruct (c_ph x) eqn:Hp; auto.
+  assert (HR := full_get _ _ _ _ _ _ F Hx).
+  assert (Hc : k_cause (mstate s) = true).
+  { destruct (full_rel _ _ _ _ F). apply g_cause0. rewrite Hd. now rewrite !orb_true_r. }
+  rewrite emit_emits. eapply full_conn with (fy := fun y => y); eauto.
+  - apply conn_only_updc.
+  - rc_start HR. destruct x as [k p t cu ga il go fa ke]. cbn in *. subst p.
+    constructor; cbn in *; auto; intros; rc_fin.
+  - cbn. discriminate.
+Qed.
+
+Lemma refuse_same : forall c s,
+  s_srv (refuse s c) = s_srv s /\ s_fired (refuse s c) = s_fired s
+  /\ length (s_conns (refuse s c)) = length (s_conns s)
+  /\ (forall c', c' <> c -> get c' (refuse s c) = get c' s)
+  /\ (forall x, get c (refuse s c) = Some x -> c_ph x <> Queued)
+  /\ (forall c' x, get c' (refuse s c) = Some x -> c_ph x = Queued -> get c' s = Some x).
+Proof.
+  intros. unfold refuse. destruct (get c s) as [x0|] eqn:Hx.
+  - destruct (c_ph x0) eqn:Hp; cbn; refine (conj _ (conj _ (conj _ (conj _ (conj _ _))))); auto;
+      try (intros; congruence); try apply upd_length.
+    + intros. unfold get. cbn. apply nth_upd_neq. congruence.
+    + intros x. unfold get in *. cbn. rewrite nth_upd_eq, Hx. cbn. intros H. inv H. cbn. discriminate.
+    + intros c' x. unfold get in *. cbn. destruct (Nat.eq_dec c' c) as [-> | Hne].
+      * rewrite nth_upd_eq, Hx. cbn. intros H. inv H. cbn. discriminate.
+      * rewrite nth_upd_neq by congruence. auto.
+  - refine (conj _ (conj _ (conj _ (conj _ (conj _ _))))); auto; intros; congruence.
+Qed.
+
+Lemma refuse_queued_spec : forall ns g q s,
+  Full ns g q s ->
+  Full ns g q (refuse_queued s)
+  /\ s_srv (refuse_queued s) = s_srv s /\ s_fired (refuse_queued s) = s_fired s
+  /\ (srv_done s = true -> forall c x, get c (refuse_queued s) = Some x -> c_ph x <> Queued)
+  /\ (forall c x, get c (refuse_queued s) = Some x -> c_ph x = Queued -> get c s = Some x).
+Proof.
+  intros ns g q s F. unfold refuse_queued. destruct (srv_done s) eqn:Hd.
+  2:{ refine (conj _ (conj _ (conj _ (conj _ _)))); auto. discriminate. }
+  set (n := length (s_conns s)).
+  pose (P := fun s' : state => Full ns g q s' /\ s_srv s' = s_srv s /\ s_fired s' = s_fired s
+                               /\ length (s_conns s') = n
+                               /\ (forall c x, get c s' = Some x -> c_ph x = Queued -> get c s = Some x)).
+  pose (Q := fun (s' : state) (c : nat) => forall x, get c s' = Some x -> c_ph x <> Queued).
+  destruct (fold_left_all state P Q refuse) with (l := seq 0 n) (s := s) as [HP HQ].
+  - intros s' c (F' & A & B & C & D). destruct (refuse_same c s') as (A' & B' & C' & D' & E' & G').
+    refine (conj _ (conj _ (conj _ (conj _ _)))); try congruence.
+    + apply full_refuse; auto. unfold srv_done in *. now rewrite A.
+    + intros c' x Hg Hp. eapply D; eauto.
+  - intros s' c _. apply refuse_same.
+  - intros s' c j _ HQ x Hg Hp. destruct (refuse_same c s') as (_ & _ & _ & _ & _ & G').
+    eapply HQ; eauto.
+  - refine (conj _ (conj _ (conj _ (conj _ _)))); auto.
+  - destruct HP as (F' & A & B & C & D).
+    refine (conj _ (conj _ (conj _ (conj _ _)))); auto.
+    intros _ c x Hg. apply (HQ c); auto. apply in_seq. apply get_some_lt in Hg. lia.
+Qed.
